@@ -7,6 +7,7 @@ averages) instantiated at the scalar type `SF` (finite binary32 numbers with cor
 import Rrtk.Thm.C12
 import Rrtk.Thm.Lemmas.SoftScalar
 import Rrtk.Thm.Lemmas.C12Rounding
+import Rrtk.Thm.Lemmas.C12Witness
 set_option linter.unusedSectionVars false
 set_option linter.unusedSimpArgs false
 namespace Rrtk.Thm.C12
